@@ -159,6 +159,8 @@ pub enum Class {
     H2Goaway,
     H2DropOpenStreams,
     H2Idle,
+    H2BackendDies,
+    H2cBackendDies,
 }
 
 pub const ALL_CLASSES: &[Class] = &[
@@ -200,6 +202,8 @@ pub const ALL_CLASSES: &[Class] = &[
     Class::H2Goaway,
     Class::H2DropOpenStreams,
     Class::H2Idle,
+    Class::H2BackendDies,
+    Class::H2cBackendDies,
 ];
 
 impl Class {
@@ -243,6 +247,8 @@ impl Class {
             Class::H2Goaway => "h2_goaway",
             Class::H2DropOpenStreams => "h2_connection_dropped_with_open_streams",
             Class::H2Idle => "h2_idle",
+            Class::H2BackendDies => "h2_backend_dies_with_streams_in_flight",
+            Class::H2cBackendDies => "h2c_backend_dies_with_requests_in_flight",
         }
     }
     /// HTTP classes that can also run over the HTTPS listener
@@ -265,6 +271,7 @@ impl Class {
                 | Class::H2Goaway
                 | Class::H2DropOpenStreams
                 | Class::H2Idle
+                | Class::H2BackendDies
         )
     }
     /// the client leaves the session idle / stuck and sozu must reclaim it by a timeout
@@ -451,7 +458,7 @@ pub fn run_session(env: &Env, class: Class, tls_on: bool, rng: &mut Rng) -> Sess
         };
     }
     match class {
-        Class::H2Complete | Class::H2RstMidBody | Class::H2Goaway | Class::H2DropOpenStreams | Class::H2Idle => super::h2::run_session(env, class, rng),
+        Class::H2Complete | Class::H2RstMidBody | Class::H2Goaway | Class::H2DropOpenStreams | Class::H2Idle | Class::H2BackendDies => super::h2::run_session(env, class, rng),
         Class::H1CompleteCl | Class::H1CompleteChunked => {
             let mut c = conn!(0);
             let chunked = class == Class::H1CompleteChunked;
@@ -547,6 +554,28 @@ pub fn run_session(env: &Env, class: Class, tls_on: bool, rng: &mut Rng) -> Sess
             };
             c.abort(rst);
             out(tag)
+        }
+        Class::H2cBackendDies => {
+            // HTTP/1.1 client (plain or TLS), h2c backend that kills its connection with the request
+            // in flight (sometimes after a first complete exchange on the same client connection)
+            let mut c = conn!(0);
+            let mut p = new_parser();
+            if rng.bool() {
+                let _ = c.write_paced(&request("GET", "/ok", "h2c.test", "", None), 0, 0);
+                let r = read_response(&mut c, &mut p, deadline);
+                if !(r.status == Some(200) && r.complete) {
+                    let t = r.tag();
+                    c.abort(rst);
+                    return out(t);
+                }
+            }
+            let before = env.ctl.h2c_killed.load(std::sync::atomic::Ordering::SeqCst);
+            let target = *rng.pick(&["/die", "/die_rst", "/die_mid"]);
+            let _ = c.write_paced(&request("GET", target, "h2c.test", "", None), 0, 0);
+            let r = read_response(&mut c, &mut p, Instant::now() + Duration::from_secs(6));
+            let killed = env.ctl.h2c_killed.load(std::sync::atomic::Ordering::SeqCst) > before;
+            c.abort(rst);
+            out(if killed && (r.status.is_some() || r.closed) { "h2c_backend_killed_in_flight" } else { r.tag() })
         }
         Class::H1AbortAfterConnect => {
             let c = conn!(0);
